@@ -480,7 +480,15 @@ def execute(case: dict) -> RunResult:
             ref_ctx, ref = lst[0]
             for ctx, a in lst[1:]:
                 exact2 = not a.is_floating_point() or bool((a == a.round()).all() and (ref == ref.round()).all())
-                if not _same(ref, a, exact2):
+                if exact2:
+                    ok2 = _same(ref, a, True)
+                else:
+                    # soft codeword of an iterative decoder: ten rounds of tanh/arctanh amplify last-ulp differences
+                    # between differently vectorised evaluations to ~1e-3 relative (seen in a 300 000-run soak on the
+                    # unchanged tree), so the soft values are compared to 2 % + 0.02; a leak between batch members
+                    # moves them by order one
+                    ok2 = a.shape == ref.shape and bool(((a.double() - ref.double()).abs() <= 0.02 * torch.maximum(a.double().abs(), ref.double().abs()) + 0.02).all())
+                if not ok2:
                     violate("second_outputs_differ", f"sample {m}: the optional second output differs between two evaluations: {ref_ctx} vs {ctx}", layouts="|".join(sorted({ref_ctx["layout"], ctx["layout"]})))
                     break
     if nontrivial:
